@@ -1,5 +1,7 @@
 import TrustVerif.Lemmas.C11Frame
 import TrustVerif.Lemmas.C11Validate
+import TrustVerif.Lemmas.C11Wf
+import TrustVerif.Generated.C11OpcodeSpec
 
 /-!
 # C11 — STBC container: total decoder/validator, exact round trip, validated means safe
@@ -32,6 +34,18 @@ theorem c11_encode_decode_encode (crc : Bytes → UInt32) (m : Module) (h : m.wf
     ∃ e, encode crc m = .ok e ∧ (decode crc e >>= encode crc) = .ok e := by
   obtain ⟨b, he, hd⟩ := decode_encode crc m h
   exact ⟨b, he, by rw [hd]; exact he⟩
+
+/-- **Round trip from arbitrary bytes** ("encoding a decoded module … decoding an encoded module
+reproduces the module" for modules that come out of `decode`).  Whatever a byte string decodes to,
+encoding and decoding it again gives the same module — provided its type tables are laid out
+canonically (`Module.offsetsCanonical`: no stray bytes in front of the first type entry, the one
+thing the decoder accepts and `encode` never writes; see `c11_roundtrip_needs_canonical_offsets`)
+and the container is not within 1 MiB of 4 GiB. -/
+theorem c11_decode_encode_decode_partial (crc : Bytes → UInt32) (bytes : Bytes) (m : Module)
+    (h : decode crc bytes = .ok m) (hcan : m.offsetsCanonical = true)
+    (hsz : bytes.length + 1048576 < 4294967296) :
+    m.wf = true ∧ ∃ b', encode crc m = .ok b' ∧ decode crc b' = .ok m :=
+  ⟨decode_wf crc bytes m h hcan hsz, decode_encode_decode crc bytes m h hcan hsz⟩
 
 /-- **"every container the compiler emits validates"**, byte side: the compiler returns a module
 only after `module.validate()` succeeded (`encoder/mod.rs`, checked by the translator scan and by
@@ -71,6 +85,16 @@ theorem c11_reservation_bounded (count remaining : Nat) :
     boundedCapacity count remaining ≤ remaining ∧ boundedCapacity count remaining ≤ count := by
   unfold boundedCapacity; omega
 
+/-- **"using memory proportional to the input": the decoded module is not larger than the
+container.**  If `decode` succeeds, the canonical encodings of all decoded sections together are at
+most `|bytes|` long — every element of every vector of the module accounts for at least one byte of
+input, sections do not overlap — and the section table fits behind the header. -/
+theorem c11_decode_size_linear (crc : Bytes → UInt32) (bytes : Bytes) (m : Module)
+    (h : decode crc bytes = .ok m) :
+    (m.sections.map fun s => (encodeSectionData m.minor s.data).length).sum ≤ bytes.length ∧
+      headerSize + m.sections.length * sectionEntrySize ≤ bytes.length :=
+  decode_size crc bytes m h
+
 /-! ## validator -/
 
 /-- **"validating terminates … never a stack overflow": the constant walk makes progress.**
@@ -102,6 +126,17 @@ theorem c11_jump_targets (index : List PouEntry) (types : List TypeEntry) (code 
   obtain ⟨w, hw, hinv, hj⟩ := validateInstructionStream_jumps index types code hlen h
   exact ⟨w, hw, hinv.starts, fun j hjm =>
     ⟨(hinv.jumps j hjm).1, (hinv.jumps j hjm).2, hj j hjm⟩⟩
+
+set_option maxRecDepth 16384 in
+/-- **The validator's opcode table is the specification's.**  For each of the 256 opcode bytes, what
+`validate_instruction_stream` does with the operands (table translated from its `match opcode`
+arms on every run) is what the normative list of `docs/specs/10-runtime.md` §7.3 (translated on
+every run as well) prescribes: same opcodes accepted, same operand widths, same operand checks;
+everything else is `InvalidOpcode`. -/
+theorem c11_opcode_table_matches_spec :
+    (List.range 256).all (fun op =>
+      decide ((opTable.lookup op).getD .invalid = (GenSpec.specTable.lookup op).getD .invalid)) = true := by
+  decide
 
 /-- The extreme offset that used to overflow (`pc = 1`, `offset = i32::MAX`) is rejected. -/
 theorem c11_jump_overflow_rejected :
@@ -171,6 +206,7 @@ example : validateConstEntryFuel 0 [] 65 ⟨.primitive, none, .primitive 1 0⟩ 
 def crc0 : Bytes → UInt32 := fun _ => 0
 example : ∃ b, encode crc0 (exModule 0) = .ok b ∧ decode crc0 b = .ok (exModule 0) :=
   c11_decode_encode crc0 _ (by rfl)
+example : (exModule 0).offsetsCanonical = true := by rfl
 
 /-- a type table payload with four stray bytes between the offset table and the only entry -/
 def gapPayload : Bytes :=
